@@ -399,7 +399,9 @@ class GraphGen:
         if kind == "evaluation":
             ces = self._distinct([self.clip_evaluation() for _ in range(n)])
             return d.Evaluation(uuid=self.uid(), created_on=self.dt(), evaluation_task=r.choice(["sound_event_detection", "clip_classification"]),
-                                clip_evaluations=ces, metrics=self.features(), score=self.unit() if self.opt() else None)
+                                clip_evaluations=ces, metrics=self.features(),
+                                # the overall score of an evaluation is any float (a percentage, a loss, a mean one ulp above 1)
+                                score=r.choice([self.unit(), 87.5, -2.5, 1.0000000000000002, 1e6]) if self.opt() else None)
         raise ValueError(kind)
 
 
